@@ -28,7 +28,7 @@ EXPLANATION = (
 
 # calls that cannot raise on the values decoders pass them
 TOTAL = {"int.from_bytes", "float", "int", "abs", "len", "bin", "list", "str", "max", "min", "isinstance", "bool", "tuple", "range", "zip", "enumerate", "reversed"}
-TOTAL_METHODS = {"read", "seek", "get", "append", "join", "format", "hex", "keys", "values", "items", "startswith", "endswith", "rstrip", "strip", "is_integer"}
+TOTAL_METHODS = {"bit_length", "read", "seek", "get", "append", "join", "format", "hex", "keys", "values", "items", "startswith", "endswith", "rstrip", "strip", "is_integer"}
 VALUEERROR_ONLY = {"datetime"}
 
 
@@ -158,6 +158,7 @@ def classify_function(ctx: Ctx, rep: Report, fn: FuncInfo, tabs):
                       bad="%s divides by %s which may be zero (%s): ZeroDivisionError" % (fn.short, norm(n.right), why))
     if not fn.is_lambda:
         pop_loops(ctx, rep, fn)
+        index_loops(ctx, rep, fn)
 
 
 def _label_tables(ctx: Ctx, fn: FuncInfo, recv: ast.expr, tabs, depth: int = 0) -> Optional[List[Tuple[str, dict]]]:
@@ -406,6 +407,118 @@ def pop_loops(ctx: Ctx, rep: Report, fn: FuncInfo):
                       fn.short, src_param, size or 0, src_param, worst[1] if worst else 0, worst[2] if worst else "", worst[3] if worst else "", worst[0] if worst else 0))
 
 
+def _param_values(ctx: Ctx, fn: FuncInfo, param: str, before: ast.AST):
+    """Candidate extreme values of an integer parameter at *before*: the register ranges the call sites can pass, minus
+    what early returns on the parameter exclude.  [(value, caller, interval)]; raises AnalysisError when unknown."""
+    prog, res = ctx.prog, ctx.res
+    excluded_pts: Set[int] = set()
+    upper_excl = None
+    for st in fn.node.body:
+        if st is before or any(st is x for x in ast.walk(before)) or any(before is x for x in ast.walk(st)):
+            break
+        if isinstance(st, ast.If) and st.body and isinstance(st.body[-1], ast.Return):
+            for atom in (st.test.values if isinstance(st.test, ast.BoolOp) and isinstance(st.test.op, ast.Or) else [st.test]):
+                if isinstance(atom, ast.Compare) and len(atom.ops) == 1 and isinstance(atom.left, ast.Name) and atom.left.id == param:
+                    try:
+                        c = prog.consteval(atom.comparators[0], fn.module)
+                    except NotConst:
+                        continue
+                    if isinstance(atom.ops[0], ast.Eq):
+                        excluded_pts.add(c)
+                    elif isinstance(atom.ops[0], ast.LtE):
+                        upper_excl = c if upper_excl is None else max(upper_excl, c)
+                    elif isinstance(atom.ops[0], ast.Lt):
+                        upper_excl = c - 1 if upper_excl is None else max(upper_excl, c - 1)
+    callers = res.callers_of(fn)
+    if not callers:
+        raise AnalysisError("%s has no caller: cannot bound its argument" % fn.short)
+    from ..calls import arg_for
+    out = []
+    for ct in callers:
+        a = arg_for(ct.node, fn, param)
+        iv = arg_interval(ctx, ct.caller, a) if a is not None else None
+        if iv is None:
+            raise AnalysisError("cannot bound the argument %s of %s in %s" % (norm(a) if a is not None else "?", fn.short, ct.caller.short))
+        lo, hi = iv
+        if upper_excl is not None:
+            lo = max(lo, upper_excl + 1)
+        cands = {lo, hi}
+        for v in (lo, hi):
+            k = v
+            while k in excluded_pts and lo <= k <= hi:
+                k += 1 if v == lo else -1
+            cands.add(k)
+        for v in sorted(c for c in cands if lo <= c <= hi and c not in excluded_pts):
+            out.append((v, ct.caller.short, iv))
+    return out
+
+
+def index_loops(ctx: Ctx, rep: Report, fn: FuncInfo):
+    """NAMES[i] with i from range(...): the largest index the loop can produce, over the register ranges the call sites
+    pass, must lie inside the constant sequence (an IndexError is not a ValueError: the whole bulk read fails)."""
+    prog = ctx.prog
+    # loop / comprehension variables bound by range(...)
+    binders = []
+    for n in ast.walk(fn.node):
+        if isinstance(n, ast.For) and isinstance(n.target, ast.Name):
+            binders.append((n.target.id, n.iter, n, n))
+        elif isinstance(n, (ast.ListComp, ast.GeneratorExp, ast.SetComp, ast.DictComp)):
+            for g in n.generators:
+                if isinstance(g.target, ast.Name):
+                    binders.append((g.target.id, g.iter, n, n))
+    for sub in [x for x in ast.walk(fn.node) if isinstance(x, ast.Subscript) and not isinstance(x.slice, ast.Slice) and isinstance(x.slice, ast.Name)]:
+        try:
+            seq = prog.consteval(sub.value, fn.module)
+        except NotConst:
+            continue
+        if not isinstance(seq, (list, tuple, str, bytes)) or (isinstance(sub.value, ast.Name) and sub.value.id in _locals_of(fn)):
+            continue
+        b = next((b for b in binders if b[0] == sub.slice.id and any(x is sub for x in ast.walk(b[2]))), None)
+        if b is None or not (isinstance(b[1], ast.Call) and norm(b[1].func) == "range" and len(b[1].args) == 1):
+            continue          # not a range-driven index (zip / enumerate pairs cannot run past the shorter sequence)
+        key = "index-loop:%s:%s" % (fn.short, norm(sub))
+        worst = _max_of(ctx, fn, b[1].args[0], b[3])
+        if worst is None:
+            raise AnalysisError("the bound of range(%s) indexing %s in %s is not understood (%s)" % (norm(b[1].args[0]), norm(sub.value), fn.short, fn.loc(sub)))
+        n, witness = worst
+        rep.check(n <= len(seq), "C11.R1", key, fn.loc(sub), "%s indexes %s (%d entries) with at most %d" % (fn.short, norm(sub.value), len(seq), n - 1),
+                  bad="%s indexes %s (%d entries) with i from range(%s), which reaches %d%s -> IndexError, which aborts the whole read instead of yielding None" % (
+                      fn.short, norm(sub.value), len(seq), norm(b[1].args[0]), n - 1, witness))
+
+
+def _locals_of(fn: FuncInfo) -> Set[str]:
+    return set(fn.params) | {n.id for n in ast.walk(fn.node) if isinstance(n, ast.Name) and isinstance(n.ctx, ast.Store)}
+
+
+def _max_of(ctx: Ctx, fn: FuncInfo, e: ast.expr, before: ast.AST):
+    """Largest value of a range() bound: constant, <param>.bit_length(), len(<constant>), min(...) of those."""
+    prog = ctx.prog
+    try:
+        v = prog.consteval(e, fn.module)
+        if isinstance(v, int):
+            return v, ""
+    except NotConst:
+        pass
+    if isinstance(e, ast.Call) and isinstance(e.func, ast.Attribute) and e.func.attr == "bit_length" and not e.args \
+            and isinstance(e.func.value, ast.Name) and e.func.value.id in fn.params:
+        best = None
+        for v, caller, iv in _param_values(ctx, fn, e.func.value.id, before):
+            n = int(v).bit_length()
+            if best is None or n > best[0]:
+                best = (n, " for %s = %d (reachable from %s, register range %s)" % (e.func.value.id, v, caller, iv))
+        return best
+    if isinstance(e, ast.Call) and norm(e.func) == "min" and e.args:
+        parts = []
+        for a in e.args:
+            try:
+                parts.append(_max_of(ctx, fn, a, before))
+            except AnalysisError:
+                parts.append(None)
+        known = [p_ for p_ in parts if p_ is not None]
+        return min(known, key=lambda t: t[0]) if known else None
+    return None
+
+
 # ----------------------------------------------------------------------- R2
 def r2(ctx: Ctx, rep: Report):
     prog, res = ctx.prog, ctx.res
@@ -427,6 +540,9 @@ def r2(ctx: Ctx, rep: Report):
     for fn in res.all_funcs():
         for ct in res.calls_of(fn):
             if any(f in reads for f in ct.funcs) and isinstance(ct.node.func, ast.Attribute) and ct.node.func.attr == "read":
+                if ct.unresolved and any(f not in reads for f in ct.funcs) and len(ct.node.args) == 1 \
+                        and isinstance(ct.node.args[0], ast.Constant) and isinstance(ct.node.args[0].value, int):
+                    continue      # untyped receiver, name-based candidates: read(<number of bytes>) is the buffer's read, not a sensor's
                 recv = ct.node.func.value
                 inside_sensor = fn.cls is not None and prog.is_subclass(fn.cls, sensor)
                 ok = fn is mr or inside_sensor
